@@ -86,6 +86,8 @@ def build(case):
                 gname = str(rng.choice(["G%d_%d" % (ci, i), "G%d_%d" % (ci, i), "Antitarget", "-", "CGH", "DUP"]))
             gene_run -= 1
             w = 0.0 if rng.random() < c["zerow_frac"] else float(rng.uniform(0.05, 1.0))
+            if w and rng.random() < 0.15:
+                w = float(rng.choice([0.3, 0.3, 0.29999999999999993, 0.30000000000000004, 1.0]))  # on and next to the min_weight threshold
             rows.append([c["name"], pos, pos + size, gname, -20.0 - float(rng.integers(0, 4)) if null else v,
                          0.0 if null else float(2 ** v * 50), w])
             pos += size + int(rng.integers(0, 3000)) * int(rng.integers(0, 2))
